@@ -165,8 +165,9 @@ fn case_strategy(tier: Tier, open: Vec<bool>, no_big_u64: bool) -> BoxedStrategy
             ];
             let q = (opt_w(0.2, 0..N_CTX), opt_w(0.25, 0u32..7200), where_strategy(&td, 2)).prop_map(|(ctx, since, w)| Q { ctx, since, w });
             let leafq = leaf_strategy(&td).prop_map(|w| Q { ctx: None, since: None, w });
-            // (base, step): the shared grid, around a day boundary, hour steps, day steps
-            let grid = prop::sample::select(vec![(1_700_000_000i64, 1800i64), (1_699_920_000 - 1800, 1800), (1_699_999_200 - 3600, 3600), (1_699_920_000 - 86_400, 86_400), (1_699_920_000 - 3, 1)]);
+            // (base, step): the shared grid, around a day boundary, hour steps, day steps, three-day and month steps (a zone then
+            // spans weeks or months of the time field)
+            let grid = prop::sample::select(vec![(1_700_000_000i64, 1800i64), (1_699_920_000 - 1800, 1800), (1_699_999_200 - 3600, 3600), (1_699_920_000 - 86_400, 86_400), (1_699_920_000 - 3, 1), (1_699_920_000 - 3 * 86_400, 3 * 86_400), (1_699_920_000 - 86_400, 30 * 86_400)]);
             (Just(cfg), Just(td), prop::collection::vec(op, 8..=max_ops), prop::collection::vec(prop_oneof![2 => q, 3 => leafq], 4..=12), grid, any::<bool>())
         })
         .prop_map(move |(cfg, td, mut ops, mut queries, (base, step), frac_floats)| {
